@@ -20,6 +20,7 @@ EXPLANATION = (
     "current.MetaData(literal_eval(dict)); (R4) remap_by_types returns the transformer's final stream and the three operators use that "
     "stream's AST as the operator's source; (R5) callbacks are invoked from exactly three sites; (R6) every node returned by a callback "
     "or processor, or rebuilt by the filler, carries an _old_ast back-link so that the rewrite is patched into nested lambdas."
+    " (R6, as of D51) the patch-back onto a nested lambda's call copies all arguments of the processed call, not only those added behind the user's own."
 )
 NOT_DECIDED = "what user callbacks do; that a callback fires for every call site of every query (type resolution over arbitrary class models)."
 
